@@ -144,6 +144,7 @@ def verify_target(cm: str, target: str, timeout_ms: int = 10000, repo: str | Non
         res["obligations"] = agg
         res["undecided"] = [list(u) for u in e.undecided]
         res["paths"] = e.paths
+        res["dropped"] = e.dropped
         res["covers"] = sorted(e.covers)
         res["assumed_used"] = sorted(e.assumed_used)
         res["calls"] = sorted(e.calls_seen)
